@@ -253,6 +253,7 @@ theorem callNative_sleep (d : Value) (s1 : Span) :
 /-! ## ROBOT -/
 theorem callNative_robotMap (v : Value) (s1 : Span) :
     callNative env .robotMap [v] [s1] σ = (castStr v s1 σ).bind fun s =>
+      if 2 ^ 63 ≤ ulen s then .fuel else
       (match Robot.parse s with
        | some r => .ok (.obj (allocCell σ (.robot r)).1, (allocCell σ (.robot r)).2)
        | none => .ok (.null, σ)) := rfl
